@@ -117,7 +117,7 @@ def check(case, rec):
         raw_blocks, _ = M.parse_bec2_header(binary)
     except M.Reject as e:
         raise Violation("written BEC2 does not have the documented envelope/header: %s" % e)
-    decryptors = [sut.mk_encryptor(blocks[i]) for i in case["open"]]
+    decryptors = [sut.mk_encryptor(blocks[i], role="reader") for i in case["open"]]
     if case.get("decoys"):
         # other ECC decryptors (different key selectors) listed BEFORE the matching ones: selection must go by selector, not by position
         rec.cls("decoy-decryptors")
